@@ -143,6 +143,23 @@ class NeedMutSelf(Exception):
     as a state-updating method"""
 
 
+def desugar_iter_mut(node):
+    """(b1012, round 9) `for x in PLACE.iter_mut() { *x = RHS; }` (exactly one statement, an assignment through the loop
+    variable) is `PLACE = PLACE.iter().map(|x| RHS).collect();` -- every element is replaced by RHS evaluated on it, in order.
+    Any other use of `iter_mut` in a `for` stays refused."""
+    if isinstance(node, list): return [desugar_iter_mut(x) for x in node]
+    if not isinstance(node, tuple): return node
+    if len(node) == 4 and node[0] == "for" and node[1][0] == "pvar" and isinstance(node[2], tuple) and len(node[2]) == 6 \
+            and node[2][0] == "mcall" and node[2][2] == "iter_mut" and not node[2][4] \
+            and node[3][0] == "block" and len(node[3][1]) == 1 and node[3][2] is None:
+        st = node[3][1][0]
+        if st[0] == "expr" and st[1][0] == "assign" and st[1][1] == "=" and st[1][2] == ("deref", ("path", [node[1][1]])):
+            X, ln, rhs = node[2][1], node[2][5], st[1][3]
+            return ("assign", "=", X, ("mcall", ("mcall", ("mcall", X, "iter", None, [], ln), "map", None,
+                                                 [("closure", [node[1]], rhs, "same_elt")], ln), "collect", None, [], ln))
+    return tuple(desugar_iter_mut(x) for x in node)
+
+
 class Unit:
     """one Rust source file -> one Lean namespace"""
 
@@ -409,6 +426,7 @@ class Unit:
                 f = src.function(impl, name)
             else:
                 f = self.fi.function(impl, name)
+            f = dict(f); f["body"] = desugar_iter_mut(f["body"])
             try:
                 info = FnTranslator(self, f).run()
             except NeedMutSelf:
@@ -1547,6 +1565,9 @@ class FnTranslator:
             return self.place_set(e[1], "(some %s)" % new, env, pre)
         if k == "mcall" and e[2] in ("as_mut", "borrow_mut", "as_mut_slice") and not e[4]:
             return self.place_set(e[1], new, env, pre)
+        if k == "mcall" and e[2] in ("unwrap", "expect") and e[1][0] == "mcall" and e[1][2] == "lock" and not e[1][4]:
+            # (b1012, round 9) `*X.lock().unwrap() = v;`: the lock is the identity on the protected value (as for reads)
+            return self.place_set(e[1][1], new, env, pre)
         if k == "tfield":
             base, bt = self.expr(e[1], env, pre, None)
             if bt[0] != "tuple": raise RsError("tuple field assignment on a non-tuple")
@@ -1641,7 +1662,10 @@ class FnTranslator:
                 return self.place_set(place, v, env, pre)
             r = self.mutator(recv, e[2], e[4], env, pre, None, discard=True)
             if r is not None: return env
-            raise RsError("mutating method %s on %r is outside the subset" % (e[2], bt[0]))
+            # (b1012, round 9) a struct of the unit with a method of its own that happens to be named like a collection mutator
+            # (`VelocityControl::clear`): the ordinary call of a `&mut self` method on a place, below
+            if not (bt[0] == "struct" and self.u.fi.fns.get((bt[1], e[2])) not in (None, "ambiguous")):
+                raise RsError("mutating method %s on %r is outside the subset" % (e[2], bt[0]))
         term, t = self.expr(e, env, pre, None)
         if t != UNIT:
             # a discarded value: fine if pure (its bindings stay for their panics)
@@ -3044,7 +3068,8 @@ class FnTranslator:
             return "(%s.contains %s)" % (base, x), BOOL, "val"
         if bt[0] != "iter": raise RsError("method .%s on a vector is outside the subset" % m)
         if m == "map":
-            pats, ir, t = self.closure1(args[0], [el], env, None)
+            # (a closure made by desugar_iter_mut returns a new element: its result is typed by the element type)
+            pats, ir, t = self.closure1(args[0], [el], env, el if len(args[0]) > 3 and args[0][3] == "same_elt" else None)
             if t == INTLIT: raise RsError("closure returning an untyped literal")
             if not monadic(ir):
                 return "(%s.map (fun %s => %s))" % (base, pats[0], inline(ir)), ("iter", t), "val"
